@@ -67,6 +67,7 @@ class DocRun(object):
             raise Violation("parse-paragraph-count", "parsed %d paragraphs from %s, expected %d" % (
                 len(self.rparas), short(text), len(self.paras)))
         self.use_view = use_view
+        self.token_roles = ()
         self.compare("parse")
 
     # -------------------------------------------------------------------------------- model
@@ -118,6 +119,19 @@ class DocRun(object):
 
     def view(self, rp):
         return rp.configured_view() if self.use_view else rp
+
+    def rkey(self, rp, p, key, role="key"):
+        """The key handed to the library: name, (name, i) or - when the caller asked for it with
+        ``self.token_roles`` and the key denotes one occurrence - that occurrence's field-name
+        token (the third documented key form; it denotes exactly that occurrence)."""
+        name, idx = key
+        k = name if idx is None else (name, idx)
+        if role in self.token_roles:
+            occ = self.occ(p, name)
+            if occ and (idx is not None or len(occ) == 1):
+                self.labels.add("key-form:name-token")
+                return rp.get_kvpair_element(k).field_token
+        return k
 
     # -------------------------------------------------------------------------------- compare
     def compare(self, what):
@@ -235,8 +249,7 @@ class DocRun(object):
         caller may catch the error and carry on.  If the library accepts the value instead, nothing
         is said about the result and the history ends here (returns False)."""
         p, rp = self.paras[pi], self.rparas[pi]
-        name, idx = key
-        rkey = name if idx is None else (name, idx)
+        rkey = self.rkey(rp, p, key)
         try:
             self.assign(rp, rkey, value, route)
         except ValueError:
@@ -251,7 +264,7 @@ class DocRun(object):
         p, rp = self.paras[pi], self.rparas[pi]
         name, idx = key
         occ = self.occ(p, name)
-        rkey = name if idx is None else (name, idx)
+        rkey = self.rkey(rp, p, key)
         if route == "view-noresolve" and len(occ) > 1 and idx is None:
             route = None       # the un-indexed key is ambiguous here: that view refuses it by design
         self.assign(rp, rkey, value, route)
@@ -274,11 +287,18 @@ class DocRun(object):
             raise Violation("write-value", "after %s: field text %s reads %s, assigned %s" % (
                 what, short(body), short(canon_body(body)), short(canon_new(value))))
 
-    def do_del(self, pi, key, what):
+    def do_clear(self, pi, what):
+        """Mapping.clear(): every field of the paragraph is deleted."""
+        p, rp = self.paras[pi], self.rparas[pi]
+        self.view(rp).clear()
+        p[:] = []
+        self.labels.add("del-route:clear")
+
+    def do_del(self, pi, key, what, route=None):
         p, rp = self.paras[pi], self.rparas[pi]
         name, idx = key
         occ = self.occ(p, name)
-        rkey = name if idx is None else (name, idx)
+        rkey = self.rkey(rp, p, key)
         if not occ:
             before = self.file.dump()
             try:
@@ -288,7 +308,16 @@ class DocRun(object):
                 self.labels.add("del-missing-keyerror")
                 return
             raise Violation("del-missing-no-keyerror", "del p[%r] did not raise" % (rkey,))
-        del self.view(rp)[rkey]
+        if route == "pop" and (idx is not None or len(occ) == 1):
+            # Mapping.pop(): deletes and hands back the value that was there
+            f = occ[0 if idx is None else idx]
+            got = self.view(rp).pop(rkey)
+            self.labels.add("del-route:pop")
+            if got != canon_body(f["b"]):
+                raise Violation("pop-value", "%s: pop returned %s, the field held %s" % (
+                    what, short(got), short(canon_body(f["b"]))))
+        else:
+            del self.view(rp)[rkey]
         for g in (occ if idx is None else [occ[idx]]):
             p[:] = [x for x in p if x is not g]
 
@@ -302,7 +331,7 @@ class DocRun(object):
 
     def do_order(self, pi, op, key, ref, what):
         p, rp = self.paras[pi], self.rparas[pi]
-        rkey = key[0] if key[1] is None else (key[0], key[1])
+        rkey = self.rkey(rp, p, key)
         moved = self.resolve(p, key)
         refnode = None
         rref = None
@@ -310,7 +339,7 @@ class DocRun(object):
         if moved is None:
             expect = KeyError
         if op in ("before", "after"):
-            rref = ref[0] if ref[1] is None else (ref[0], ref[1])
+            rref = self.rkey(rp, p, ref, "ref")
             r = self.resolve(p, ref)
             if r is None:
                 expect = KeyError
